@@ -39,7 +39,7 @@ Ids(s) == 1..(IF s.maxT + 2 <= MaxId THEN s.maxT + 2 ELSE MaxId)
 Calls(s) ==
     (IF KAddNode \in Kinds /\ ~HasSeg
        THEN {<<KAddNode, n, t, i, f>> : n \in Node, t \in Times, i \in Ids(s), f \in {0, 1}}
-            \cup {<<KAddNode, n, t, i, f>> : n \in Node, t \in Times, i \in {1, s.maxT + 1}, f \in {2, 3}}
+            \cup {<<KAddNode, n, t, i, f>> : n \in Node, t \in Times, i \in {1, s.maxT + 1}, f \in {2, 3, 16, 17}}
             \cup {<<KAddNode, n, 0, 1, f>> : n \in Node, f \in {4, 8}}
        ELSE {})
     \cup (IF KAddEdge \in Kinds THEN {<<KAddEdge, u, v, f, 0>> : u \in Node, v \in Node, f \in {0, 1}} ELSE {})
@@ -90,6 +90,16 @@ SeedsSeg == {<<>>,
 \* no segmentation: a division with grandchildren needs 4-5 nodes
 SeedsStruct4 == {<<>>,
              << <<KAddNode,1,0,1,0>>, <<KAddNode,2,1,1,0>>, <<KAddNode,3,1,2,0>>, <<KAddEdge,1,3,0,0>>, <<KAddNode,4,2,3,0>> >>}
+\* 4-node universe, started from the shapes that the forced / division branches need:
+\* division; division with children in different frames; division with grandchild; chain;
+\* skip edge; three separate lineages
+SeedsStruct4s == {
+   << <<KAddNode,1,0,1,0>>, <<KAddNode,2,1,1,0>>, <<KAddNode,3,1,2,0>>, <<KAddEdge,1,3,0,0>> >>,
+   << <<KAddNode,1,0,1,0>>, <<KAddNode,2,1,1,0>>, <<KAddNode,3,2,2,0>>, <<KAddEdge,1,3,0,0>> >>,
+   << <<KAddNode,1,0,1,0>>, <<KAddNode,2,1,1,0>>, <<KAddNode,3,1,2,0>>, <<KAddEdge,1,3,0,0>>, <<KAddNode,4,2,3,0>> >>,
+   << <<KAddNode,1,0,1,0>>, <<KAddNode,2,1,1,0>>, <<KAddNode,3,2,1,0>> >>,
+   << <<KAddNode,1,0,1,0>>, <<KAddNode,3,2,1,0>> >>,
+   << <<KAddNode,1,0,1,0>>, <<KAddNode,2,1,2,0>>, <<KAddNode,3,0,3,0>>, <<KAddNode,4,1,3,0>> >> }
 RECURSIVE RunPath(_, _)
 RunPath(s, p) == IF p = <<>> THEN s ELSE RunPath(Trim(StepOrd(s, Head(p), 1).s), Tail(p))
 
